@@ -4,7 +4,7 @@
 //! through the crate's `BC64` trait, each shadowed by a `[bool; 64]`
 //! membership model that uses plain loops and the documented deck order.
 
-use crate::cardsref::{card_bit, card_name, card_word, spelling, spellings, CARD_MASK, JUNK, SEPARATORS};
+use crate::cardsref::{card_bit, card_name, card_word, spelling, spellings, CARD_MASK, JUNK, SEPARATORS, TAILS};
 use crate::json::J;
 use crate::rng::{fold, Rng, FNV_OFFSET};
 use crate::sim::{at, Obs, Outcome, Violation, World};
@@ -23,7 +23,7 @@ pub const DRAIN_CUTOFF: usize = 65;
 
 #[derive(Clone, PartialEq, Debug)]
 pub enum Tok {
-    Card { idx: u8, spell: u8 },
+    Card { idx: u8, spell: u8, tail: u8 },
     Junk(u8),
 }
 
@@ -88,6 +88,7 @@ const PROBE_LIST: &[&str] = &[
     "text_outline_glyph",
     "text_zero_for_ten",
     "text_lowercase_spelling",
+    "text_card_token_with_tail",
     "raw_empty",
     "raw_full_deck",
     "raw_with_overflow_bits",
@@ -126,7 +127,6 @@ const PROBE_LIST: &[&str] = &[
     "drain_8_or_more",
     "drain_with_overflow",
     "drain_empty",
-    "noop",
     "swarm_mix_build_heavy",
     "swarm_mix_peel_heavy",
     "swarm_mix_fold_heavy",
@@ -165,6 +165,7 @@ struct P {
     text_outline: usize,
     text_zero: usize,
     text_lower: usize,
+    text_tail: usize,
     raw_empty: usize,
     raw_full: usize,
     raw_over: usize,
@@ -203,7 +204,6 @@ struct P {
     drain_8: usize,
     drain_over: usize,
     drain_empty: usize,
-    noop: usize,
     mix: usize,
     over_allowed: usize,
     over_never: usize,
@@ -236,6 +236,7 @@ fn probes() -> &'static P {
         text_outline: pi("text_outline_glyph"),
         text_zero: pi("text_zero_for_ten"),
         text_lower: pi("text_lowercase_spelling"),
+        text_tail: pi("text_card_token_with_tail"),
         raw_empty: pi("raw_empty"),
         raw_full: pi("raw_full_deck"),
         raw_over: pi("raw_with_overflow_bits"),
@@ -274,7 +275,6 @@ fn probes() -> &'static P {
         drain_8: pi("drain_8_or_more"),
         drain_over: pi("drain_with_overflow"),
         drain_empty: pi("drain_empty"),
-        noop: pi("noop"),
         mix: pi("swarm_mix_build_heavy"),
         over_allowed: pi("swarm_overflow_allowed"),
         over_never: pi("swarm_overflow_never"),
@@ -508,7 +508,10 @@ pub fn text_of(tokens: &[Tok], seps: &[u8], lead: bool, trail: bool) -> String {
             s.push_str(SEPARATORS[sep]);
         }
         match t {
-            Tok::Card { idx, spell } => s.push_str(&spelling(*idx as usize % 52, *spell as usize)),
+            Tok::Card { idx, spell, tail } => {
+                s.push_str(&spelling(*idx as usize % 52, *spell as usize));
+                s.push_str(TAILS[*tail as usize % TAILS.len()]);
+            }
             Tok::Junk(j) => s.push_str(JUNK[*j as usize % JUNK.len()]),
         }
     }
@@ -619,8 +622,11 @@ impl C15 {
                     let mut pending_junk = false;
                     for t in tokens.iter() {
                         match t {
-                            Tok::Card { idx, spell } => {
+                            Tok::Card { idx, spell, tail } => {
                                 let i = *idx as usize % 52;
+                                if *tail as usize % TAILS.len() != 0 {
+                                    obs.hit(p.text_tail);
+                                }
                                 if m.m[51 - i] {
                                     rep = true;
                                 }
@@ -1193,11 +1199,12 @@ impl<'a> Gen<'a> {
                 // repeat an earlier token's card in another spelling
                 let prev = toks[self.rng.usize_below(k)].clone();
                 match prev {
-                    Tok::Card { idx, .. } => toks.push(Tok::Card { idx, spell: self.rng.below(12) as u8 }),
+                    Tok::Card { idx, .. } => toks.push(Tok::Card { idx, spell: self.rng.below(12) as u8, tail: 0 }),
                     j => toks.push(j),
                 }
             } else {
-                toks.push(Tok::Card { idx: self.rng.below(52) as u8, spell: self.rng.below(12) as u8 });
+                let tail = if self.rng.chance(1, 16) { 1 + self.rng.below(TAILS.len() as u64 - 1) as u8 } else { 0 };
+                toks.push(Tok::Card { idx: self.rng.below(52) as u8, spell: self.rng.below(12) as u8, tail });
             }
         }
         let plain = self.rng.chance(1, 2);
@@ -1408,12 +1415,12 @@ impl World for C15 {
         for i in 0..52u8 {
             let mut ops = Vec::new();
             for sp in 0..spellings(i as usize) as u8 {
-                ops.push(Op::BuildText { dst: 0, tokens: vec![Tok::Card { idx: i, spell: sp }], seps: vec![], lead: sp % 2 == 1, trail: sp % 3 == 1 });
+                ops.push(Op::BuildText { dst: 0, tokens: vec![Tok::Card { idx: i, spell: sp, tail: if sp == 5 { (i % 5) + 1 } else { 0 } }], seps: vec![], lead: sp % 2 == 1, trail: sp % 3 == 1 });
                 ops.push(Op::Count { r: 0 });
             }
             out.push((format!("every spelling of {}", card_name(i as usize)), ops));
         }
-        let whole: Vec<Tok> = (0..52u8).rev().map(|i| Tok::Card { idx: i, spell: i % 12 }).collect();
+        let whole: Vec<Tok> = (0..52u8).rev().map(|i| Tok::Card { idx: i, spell: i % 12, tail: 0 }).collect();
         out.push(("whole deck as text, reversed, then drain".into(), vec![Op::BuildText { dst: 0, tokens: whole.clone(), seps: (0..51).map(|i| i as u8 % 6).collect(), lead: true, trail: true }, Op::Count { r: 0 }, Op::Drain { r: 0 }]));
         let mut junky: Vec<Tok> = Vec::new();
         for (n, t) in whole.iter().enumerate() {
@@ -1424,7 +1431,7 @@ impl World for C15 {
         }
         out.push(("whole deck with junk between".into(), vec![Op::BuildText { dst: 0, tokens: junky, seps: vec![], lead: false, trail: false }, Op::Count { r: 0 }, Op::Drain { r: 0 }]));
         for j in 0..JUNK.len() as u8 {
-            out.push((format!("junk token {} alone and between cards", JUNK[j as usize]), vec![Op::BuildText { dst: 0, tokens: vec![Tok::Junk(j)], seps: vec![], lead: false, trail: false }, Op::Valid { r: 0 }, Op::BuildText { dst: 1, tokens: vec![Tok::Card { idx: 3, spell: 0 }, Tok::Junk(j), Tok::Card { idx: 40, spell: 3 }], seps: vec![0, 2], lead: false, trail: false }, Op::Count { r: 1 }, Op::Drain { r: 1 }]));
+            out.push((format!("junk token {} alone and between cards", JUNK[j as usize]), vec![Op::BuildText { dst: 0, tokens: vec![Tok::Junk(j)], seps: vec![], lead: false, trail: false }, Op::Valid { r: 0 }, Op::BuildText { dst: 1, tokens: vec![Tok::Card { idx: 3, spell: 0, tail: 0 }, Tok::Junk(j), Tok::Card { idx: 40, spell: 3, tail: 0 }], seps: vec![0, 2], lead: false, trail: false }, Op::Count { r: 1 }, Op::Drain { r: 1 }]));
         }
         out.push(("empty text".into(), vec![Op::BuildText { dst: 0, tokens: vec![], seps: vec![], lead: true, trail: false }, Op::Valid { r: 0 }, Op::Peel { r: 0 }]));
         // folds
@@ -1487,7 +1494,7 @@ impl World for C15 {
                         tokens
                             .iter()
                             .map(|t| match t {
-                                Tok::Card { idx, spell } => J::obj().with("card", u(*idx)).with("spell", u(*spell)),
+                                Tok::Card { idx, spell, tail } => J::obj().with("card", u(*idx)).with("spell", u(*spell)).with("tail", u(*tail)),
                                 Tok::Junk(j) => J::obj().with("junk", u(*j)),
                             })
                             .collect(),
@@ -1534,7 +1541,7 @@ impl World for C15 {
                 let mut tokens = Vec::new();
                 for t in arr {
                     if let Some(c) = t.get("card") {
-                        tokens.push(Tok::Card { idx: c.as_u64().ok_or("bad card")? as u8, spell: t.get("spell").and_then(|x| x.as_u64()).unwrap_or(0) as u8 });
+                        tokens.push(Tok::Card { idx: c.as_u64().ok_or("bad card")? as u8, spell: t.get("spell").and_then(|x| x.as_u64()).unwrap_or(0) as u8, tail: t.get("tail").and_then(|x| x.as_u64()).unwrap_or(0) as u8 });
                     } else if let Some(jk) = t.get("junk") {
                         tokens.push(Tok::Junk(jk.as_u64().ok_or("bad junk")? as u8));
                     } else {
@@ -1614,10 +1621,10 @@ impl World for C15 {
                     out.push(Op::BuildText { dst: *dst, tokens: tokens.clone(), seps: seps.clone(), lead: false, trail: false });
                 }
                 for (i, t) in tokens.iter().enumerate() {
-                    if let Tok::Card { idx, spell } = t {
-                        if *spell != 0 {
+                    if let Tok::Card { idx, spell, tail } = t {
+                        if *spell != 0 || *tail != 0 {
                             let mut t2 = tokens.clone();
-                            t2[i] = Tok::Card { idx: *idx, spell: 0 };
+                            t2[i] = Tok::Card { idx: *idx, spell: 0, tail: 0 };
                             out.push(Op::BuildText { dst: *dst, tokens: t2, seps: seps.clone(), lead: *lead, trail: *trail });
                         }
                     }
@@ -1693,7 +1700,7 @@ impl World for C15 {
             .with(
                 "not_demanded",
                 J::Arr(
-                    ["whether bits above 51 survive fold_in / peel (they may stay or vanish)", "number_of_cards / is_single_card on values with bits above 51 (either reading accepted)", "non-card words in hands", "which character sequences beyond the listed spellings parse as cards"].iter().map(|s| J::str(s)).collect(),
+                    ["whether bits above 51 survive fold_in / peel (they may stay or vanish)", "number_of_cards / is_single_card on values with bits above 51 (either reading accepted)", "non-card words in hands", "which character sequences parse as cards beyond: a listed two-character spelling, optionally followed by a tail (C12: a token is a card iff it starts with rank+suit symbols)"].iter().map(|s| J::str(s)).collect(),
                 ),
             )
     }
